@@ -346,6 +346,7 @@ func init() {
 			p.Owners = []uint64{1, 2}[:r.Range(1, 2)]
 			p.NestedTargetBias = 0.4
 			p.W["a.oob"] = 8
+			p.KeepProb = []float64{0, 0.3, 0.6}[r.Intn(3)] // detached-and-kept containers get offered to rejected requests
 			p.W["m.get"] = 8
 			p.W["m.remove"] = 12
 			p.W["iter"] = 4
